@@ -68,6 +68,15 @@ def dotted(path):
     return ".".join(codec.seq(path))
 
 
+@contextlib.contextmanager
+def _quiet():
+    import warnings
+
+    with warnings.catch_warnings():
+        warnings.simplefilter("ignore", DeprecationWarning)
+        yield
+
+
 class World:
     def __init__(self, cinco, desc):
         self.cinco = cinco
@@ -104,7 +113,10 @@ class World:
                     target = getattr(target, k)
                 setattr(target, ev["k"], cfgadapter.value_to_py(cinco, ev["v"]))
             elif op == "Override":
-                parser = cinco.generate_argparse_parser(self.schema, allow_abbrev=False)
+                # the support functions and the (deprecated) methods that delegate to them, in turn
+                legacy = len(codec.seq(ev["argv"])) % 2 == 1
+                with _quiet():
+                    parser = self.schema.generate_argparse_parser(allow_abbrev=False) if legacy else cinco.generate_argparse_parser(self.schema, allow_abbrev=False)
                 try:
                     with contextlib.redirect_stderr(io.StringIO()), contextlib.redirect_stdout(io.StringIO()):
                         ns = parser.parse_args(self.argv(ev))
@@ -113,7 +125,11 @@ class World:
                 res["ns"] = [[list(k.split(".")), codec.to_abs(v)] for k, v in vars(ns).items()]
                 ign = [dotted(p) for p in codec.seq(ev["ignore"])]
                 ignore = None if not ign else (ign[0] if len(ign) == 1 else ign)
-                cinco.cmdline_args_override(self.cfg, ns, ignore=ignore)
+                with _quiet():
+                    if legacy:
+                        self.cfg.cmdline_args_override(ns, ignore=ignore)
+                    else:
+                        cinco.cmdline_args_override(self.cfg, ns, ignore=ignore)
             elif op == "Describe":
                 res.update(self.describe(ev.get("mode", "topdown")))
             else:
@@ -151,6 +167,9 @@ class World:
             cfg = schema()
         fields = cinco.get_all_fields(schema)
         problems = []
+        with _quiet():
+            if [(p, f) for p, _s, f in schema.get_all_fields()] != [(p, f) for p, _s, f in fields]:
+                problems.append("Schema.get_all_fields() differs from get_all_fields(schema)")
         paths = []
         for path, owner, field in fields:
             paths.append(list(path))
